@@ -369,6 +369,21 @@ fn c12_alarm_lookup_1023() {
     alarm_lookup(1023);
 }
 
+/// Quick-tier companion for the upper half of the code space: every code with one of the six high
+/// bits set on top of a low part <= 1023 (0x0400..=0xFFFF in steps the quick range cannot reach
+/// otherwise) has no definition - a lookup that masks or truncates the code fails here.
+#[kani::proof]
+fn c12_alarm_lookup_high_bits() {
+    let low: u16 = kani::any();
+    kani::assume(low <= 1023);
+    let k: u8 = kani::any();
+    kani::assume(k >= 10 && k <= 15);
+    let c = low | (1u16 << k);
+    assert!(get_alarm_message(c).is_none(), "C12: alarm definition exists above 800");
+    wit!(c == 0x8000 + 14);
+    wit!(c == 0x0400);
+}
+
 #[kani::proof]
 fn c12_alarm_lookup_all() {
     alarm_lookup(65535);
